@@ -410,6 +410,8 @@ def predict_structure(data):
         if name.upper() == "BEGIN":
             stack.append(value.upper())
         elif name.upper() == "END":
+            if not stack:
+                return None, involved          # an END without BEGIN: the model says "whole parse rejected"
             stack.pop()
         else:
             involved = involved or defects.placeholder_involved(line)
